@@ -156,6 +156,11 @@ def run(ck):
     from props import C01
     n0 = len(ck.results)
     C01.token_factory_rules(ck, "6")
+    # every key the poller reports is decoded into a PollEvent of its own (no merging of the events of different
+    # sub-tokens of one source): shared with C02.2
+    from props import C02 as _C02, common as _cm20
+
+    _cm20.import_results(ck, _C02, "2", "Poll::poll", "6")
     for r in ck.results[n0:]:
         obligations.append((r["key"], r["verdict"] == "ok"))
 
